@@ -6,7 +6,7 @@ i=$1; tier=${2:-quick}; p=$(echo $i | cut -c1-3)
 S=/tmp/sr-$i-$$; rm -rf $S; mkdir -p $S && cp -r /repo $S/repo && { git -C $S/repo apply /verif/seeded/$i/patch.diff 2>/dev/null || git -C $S/repo apply -3 /verif/seeded/$i/patch.diff 2>/dev/null; } || { echo "APPLYFAIL $i"; rm -rf $S; exit 2; }
 h=$(python3 -c "import hashlib;print(hashlib.md5('$S/repo'.encode()).hexdigest()[:8])")
 cd /verif
-VERIF_REPO=$S/repo flock /verif/.build/sweep.lock ./check $p --tier $tier | grep -v KNOWN | tail -1 | sed "s/^/$i: /"
+VERIF_REPO=$S/repo flock /verif/.build/sweep-$p.lock ./check $p --tier $tier | grep -v KNOWN | tail -1 | sed "s/^/$i: /"
 grep -h "^# class" replays/$p-$tier-1.$h.case 2>/dev/null | cut -c1-200 | head -2
 grep -v "^warning\|^Hint\|apply\]\|^Note\|^$\|^⚠\|^  \|^trace\|^✔" replays/$p-$tier-1.$h.broken.txt 2>/dev/null | head -8
 rm -rf $S
